@@ -273,5 +273,32 @@ Definition decode_full (bytes : list Z) : Res decoded :=
   | _ => Err E_SYNTAX
   end.
 
+(** Everything up to (not including) the pixels of the main image: what the
+    harness needs for its coverage counters without paying for the pixels. *)
+Definition decode_header (bytes : list Z) : Res decoded :=
+  match bytes with
+  | 47 :: rest =>
+    let s := bits_of_bytes rest in
+    '(w1, s) <- read_bits 14 s ;;
+    '(h1, s) <- read_bits 14 s ;;
+    '(alpha, s) <- read_bits 1 s ;;
+    '(ver, s) <- read_bits 3 s ;;
+    if negb (ver =? 0) then Err E_SYNTAX else
+    let w := w1 + 1 in
+    let h := h1 + 1 in
+    '(ts, cw, s) <- read_transforms 5 [] [] w h s ;;
+    '(cb, s) <- read_cache_bits s ;;
+    '(hasmeta, s) <- read_bits 1 s ;;
+    '(mb, mw, meta, s) <-
+       (if hasmeta =? 1 then
+          '(b, s) <- read_bits 3 s ;;
+          let mb := b + 2 in
+          '(mi, s) <- decode_sub_image (subsample cw mb) (subsample h mb) s ;;
+          Ok (mb, subsample cw mb, map meta_index mi, s)
+        else Ok (0, 0, [], s)) ;;
+    Ok (mkdecoded w h alpha ts cb mb (fold_left Z.max meta 0 + 1) [] [])
+  | _ => Err E_SYNTAX
+  end.
+
 Definition decode (bytes : list Z) : Res image :=
   d <- decode_full bytes ;; Ok (mkimage (d_w d) (d_h d) (d_px d)).
